@@ -452,29 +452,39 @@ class Node:
                 yield s
 
 
-def render(n, form='full'):
+def render(n, form='full', subst=None, expand=False):
     """form: 'full' every operator application in brackets; 'min' only the brackets the rank
     table requires (left-to-right grouping among equal ranks); 'sp' like 'min' with blanks
-    around dyadic operators"""
+    around dyadic operators.  subst: parameter index -> text that replaces the parameter of a
+    user-defined function (already bracketed); expand: user-defined function calls are replaced by their formula"""
+    if n.kind == 'sym' and subst is not None and isinstance(n.meta, tuple) and n.meta[0] == 'param':
+        return subst[n.meta[1]]
     if n.kind in ('lit', 'sym'):
         return n.text
+    if n.kind == 'ucall' and expand:
+        # the same formula written inline: every parameter replaced by the bracketed argument
+        f = n.meta
+        args = {i: '(' + render(k, form, subst, False) + ')' for i, k in enumerate(n.kids)}
+        return '(' + render(f.body, 'full', args, False) + ')'
+    if n.kind == 'ucall':
+        return '%s(%s)' % (n.op, ','.join(render(k, form, subst, expand) for k in n.kids))
     if n.kind == 'tri':
         # ((a<b)+(a>b)) for two different strings: 1 under every collating order
-        a, b = [('(%s)' if k.kind in ('bin', 'un') else '%s') % render(k, form) for k in n.kids]
+        a, b = [('(%s)' if k.kind in ('bin', 'un') else '%s') % render(k, form, subst, expand) for k in n.kids]
         return '((%s%s%s)+(%s%s%s))' % (a, n.op[0], b, a, n.op[1], b)
     if n.kind == 'call':
         if n.op == 'VAL' and n.text:
             return n.text
-        return '%s(%s)' % (n.meta or n.op, ','.join(render(k, form) for k in n.kids))
+        return '%s(%s)' % (n.meta or n.op, ','.join(render(k, form, subst, expand) for k in n.kids))
     if n.kind == 'un':
         k = n.kids[0]
-        t = render(k, form)
+        t = render(k, form, subst, expand)
         if k.kind in ('bin', 'un'):
             t = '(' + t + ')'
         return n.op + t
     # binary
     l, r = n.kids
-    lt, rt = render(l, form), render(r, form)
+    lt, rt = render(l, form, subst, expand), render(r, form, subst, expand)
     if form == 'full':
         if l.kind in ('bin', 'un'):
             lt = '(' + lt + ')'
@@ -523,3 +533,77 @@ def vclass(v):
 
 def vtype(v):
     return v[0]
+
+
+# ---------------------------------------------------------------------------
+# user-defined functions (doc/pseudo-instructions.md, FUNCTION): "When the function is called,
+# all parameters are calculated once and are then inserted into the function's formula":
+# the value of f(a, b) is the value of the formula with the parameters bound to the VALUES
+# of a and b.
+
+class UFunc:
+    def __init__(self, name, pnames, ptypes, body, linear=False):
+        self.name = name
+        self.pnames = pnames
+        self.ptypes = ptypes
+        self.body = body
+        self.linear = linear      # formula only adds/doubles its argument: libm results may pass through
+
+    def definition(self):
+        return '%s\tfunction\t%s,%s' % (self.name, ','.join(self.pnames), render(self.body, 'full'))
+
+
+def evaluate(n, env=None):
+    """structural evaluation of a tree with the parameters of a user-defined function bound to
+    env (list of values).  returns (value, approx)"""
+    k = n.kind
+    if k == 'lit':
+        return n.val, False
+    if k == 'sym':
+        if isinstance(n.meta, tuple) and n.meta[0] == 'param':
+            return env[n.meta[1]]
+        return n.val, False
+    sub = [evaluate(c, env) for c in n.kids]
+    vals = [v for v, _ in sub]
+    tainted = any(a for _, a in sub)
+    if k == 'ucall':
+        f = n.meta
+        if tainted and not f.linear:
+            raise Silent('libm result fed into a non-trivial formula')
+        return evaluate(f.body, sub)
+    if k == 'tri':
+        if tainted or vals[0][0] != 's' or vals[1][0] != 's' or vals[0][1] == vals[1][1]:
+            raise Silent('trichotomy needs two different strings')
+        return ('i', 1), False
+    if k == 'bin':
+        if tainted and not (n.op in ('+', '*') and all(v[0] in 'if' for v in vals)):
+            raise Silent('libm result fed into another operator')
+        v, ap = apply_bin(n.op, vals[0], vals[1])
+        return v, ap or tainted
+    if tainted:
+        raise Silent('libm result fed into another operator')
+    if k == 'un':
+        return apply_un(n.op, vals[0])
+    if k == 'call':
+        if n.op == 'VAL':
+            raise Silent('VAL inside a user-defined function')
+        return apply_func(n.op, vals)
+    raise AssertionError(k)
+
+
+def instantiate(n, args=None, limit=200):
+    """the tree of the same formula written inline: calls of user-defined functions replaced by
+    their formula with the argument trees in place of the parameters (as long as the text stays
+    below `limit` characters, otherwise an inner call is kept)"""
+    if n.kind == 'sym' and isinstance(n.meta, tuple) and n.meta[0] == 'param':
+        return args[n.meta[1]]
+    if n.kind in ('lit', 'sym'):
+        return n
+    kids = [instantiate(k, args, limit) for k in n.kids]
+    if n.kind == 'ucall':
+        inner = instantiate(n.meta.body, kids, limit)
+        if len(render(inner, 'full')) <= limit:
+            return inner
+    new = Node(n.kind, n.op, kids, text=None, meta=n.meta)
+    new.val, new.approx = evaluate(new)
+    return new
